@@ -44,6 +44,8 @@ pub open spec fn henc_wf(e: HuffmanOriginalEncoding) -> bool {
     &&& rle_total(e.lengths@) == e.num_literals + e.num_dist
     // the code-length code is a complete prefix code (the reader builds its decoding tree, which checks this)
     &&& kraft(e.code_lengths@)
+    // entries of the code-length code beyond HCLEN are zero
+    &&& henc_tail_zero(e)
 }
 pub open spec fn henc_bits(e: HuffmanOriginalEncoding) -> Seq<bool> {
     lsb_bits((e.num_literals - 257) as nat, 5) + lsb_bits((e.num_dist - 1) as nat, 5) + lsb_bits((e.num_code_lengths - 4) as nat, 4)
